@@ -106,6 +106,21 @@ class Monitors:
             if not ok:
                 mon.problems.append(('replace-contract', 'new object, given fields replaced, others identical, '
                                      'metadata equal, receiver untouched', mon.describe(result), mon.describe(self), repr(given)[:80]))
+            elif not mon.busy:
+                # the new object is a value of its own: it hashes like a freshly constructed equal
+                # object, whatever was memoised on the receiver (which may have been hashed before)
+                mon.busy = True
+                try:
+                    fresh = type(result)(**{f: getattr(result, f) for f in type(result)._fields})
+                    try:
+                        hf, hr = orig_hash(fresh), orig_hash(result)
+                    except TypeError:
+                        hf = hr = None
+                    if hf != hr:
+                        mon.problems.append(('replace-hash', 'hash of the replaced object == hash of an equal fresh object',
+                                             (hr, hf), mon.describe(result), mon.describe(self)))
+                finally:
+                    mon.busy = False
             return result
 
         PO.__eq__, PO.__hash__, PO._asdict, PO._replace = __eq__, __hash__, _asdict, _replace
@@ -304,6 +319,10 @@ def relational(rec, g, mon, pool, case):
 def api_checks(rec, g, mon, obj, fgen, case):
     rec.case()
     try:
+        try:
+            hash(obj)                       # memoise the receiver's hash first
+        except TypeError:
+            pass
         d = obj._asdict()
         fields = type(obj)._fields
         if fields:
